@@ -35,7 +35,8 @@ def funcs : List (String × String) := [
   ("internal/msgpipeline/msgpipeline.go:msgpipelineDelivery.BodyNonAtomic", "9ef190be8c536e0f"),
   ("internal/msgpipeline/msgpipeline.go:msgpipelineDelivery.Commit", "c3bd950ad436c4d4"),
   ("internal/msgpipeline/msgpipeline.go:msgpipelineDelivery.close", "11e4dc975ce697c4"),
-  ("internal/msgpipeline/msgpipeline.go:msgpipelineDelivery.getDelivery", "dc504feb895154cd")
+  ("internal/msgpipeline/msgpipeline.go:msgpipelineDelivery.getDelivery", "dc504feb895154cd"),
+  ("internal/msgpipeline/msgpipeline.go:statusCollector.SetStatus", "ce68335872bcfb76")
 ]
 
 end MaddyVerif.Expect.FuncSkelC03
